@@ -47,7 +47,7 @@ CLAIMED = {
     "C31": ("EFFECT-compare: mod-set of the value producers vs reset-set of setSeed per dynamic class, with a dead-under-guard table whose guards are checked; DERIVED (a cached function of other fields is recomputed after each write of its sources)",
             "Static decision of 'deterministic functions of their seed' (DESIGN section 3, C31): every generator field that producing values modifies is re-initialised by setSeed of the same class "
             "(which must call its base) or is unreadable until rewritten because setSeed resets its guard. Ranges, integer-mode bounds and statistics are not decided."),
-    "C26": ("HANDOUT fixed point (mutable access only after detach), EFFECT (detach/share/clone) and NOFLOW (copy operations never read the source payload) on the class-template patterns of the pointer wrappers; RELOCATE must-pass rule on Array_ (buffer released only after its elements were destroyed)",
+    "C26": ("HANDOUT fixed point (mutable access only after detach), EFFECT (detach/share/clone) and NOFLOW (copy operations never read the source payload) on the class-template patterns of the pointer wrappers; REMEMBER (ReinitOnCopy's remembered initial value comes from the source's on copy and move construction, both specialisations agreeing); RELOCATE must-pass rule on Array_ (buffer released only after its elements were destroyed)",
             "Static decision of the pointer-wrapper clauses of C26 (DESIGN section 3): every CloneOnWritePtr member that exposes mutable access or releases ownership detaches first; copies share/increment, detach clones exactly when shared; "
             "ClonePtr copies clone; ReferencePtr/ResetOnCopy/ReinitOnCopy copy operations cannot carry the source's value. All of Array_/ArrayView_ (element order, exactly-once construction/destruction, growth) is value/heap semantics and NOT decided."),
     "C23": ("PAIRCALL path rule (update slot written => marked realized with the same index on every path, in the function or in every caller), guard-index agreement, realize-hook MUSTCALL, getter/writer slot agreement; DEFN routing tables (operator per arithmetic measure, Integrate's derivative / initial-condition / z routing, Extreme's comparison and neutral element per operation with an exhaustive switch, Delay's time - delay)",
@@ -79,7 +79,7 @@ CLAIMED = {
             "Static decision of the structural clauses of C13 (DESIGN section 3): for the seven elements that apply action and reaction in one function, the two applications form a +/- pair on two different bodies with the same force and each body's own arm; "
             "frame adjacency at every parseable rotation/transform product. Magnitudes, and the balance of elements whose two spatial forces are computed separately (LinearBushing, CompliantContact, cables), are NOT decided. "
             "FRAME reads the programmer's monogram names (a false-but-conforming rename would fire; a non-conforming one only lowers coverage)."),
-    "C35": ("FRAME monogram adjacency over the trackers and collision algorithms; REVERSE rules on the mustReverse handling of ContactTrackerSubsystem (mirror-image calls, stored surface order, type-id pair normalisation)",
+    "C35": ("FRAME monogram adjacency over the trackers and collision algorithms; REVERSE rules on the mustReverse handling of ContactTrackerSubsystem (mirror-image calls, stored surface order, type-id pair normalisation); TRAVERSE (bounding-volume-tree descents: every child combination visited once, each node pruned with its own box)",
             "Static decision of two structural clauses of C35 (DESIGN section 3): frame adjacency at every parseable rotation/transform product or named assignment in the contact trackers (a swapped/dropped ~ or wrong transform is wrong for every non-identity pose), "
             "and complete, consistent reversal handling between surface order and tracker order. Overlap tests, depths, tolerance bands and mesh traversal are numerical geometry and NOT decided; about a third of the products carry parseable names on both sides."),
     "C43": ("TOL (every normal return of Assembler::assemble/track behind a successful tolerance test whose tested norm -- and the returned goal -- is that of the configuration left in the State: configuration-epoch analysis over q-changing calls, snapshots and restorations), REVERT, LOCKED (who-writes + free-index confinement + lock-source coverage), BOUNDS, ERRLIST",
